@@ -233,7 +233,8 @@ func (h *c12Tbtc) listener(c *verifadm.Case, typ string) (string, string, error)
 		stored := sdc.doneSigners[prior.senderID] == prior
 		sdc.doneSignersMutex.Unlock()
 		if !stored {
-			return "", "", fmt.Errorf("harness: the valid prior done message of seat %d was not stored", seat)
+			// the genuine done message of the seat's owner was not admitted
+			return "prior-ignored", fmt.Sprintf("the valid done message of the owner of seat %d, delivered first, was not stored", seat), nil
 		}
 	}
 	ch.Deliver(h.w.Net(c, p))
